@@ -185,16 +185,18 @@ func TagSplitMerge() {
 }
 
 // <%# %> comment tags between statement tags
-func CommentTags() { commentTags("c \n{}(=1.,;") }
 
 // the same with the characters that start a string or a line comment in code
-// (plush lexes the body of a comment tag as code: see known_findings.json)
-func CommentTagsQuoteHash() { commentTags("c#\"`") }
+// (plush lexes the body of a comment tag as code; these characters used to swallow
+// the closing %>: known_findings.json, repaired in 29ad1ed), one byte longer
+func CommentTagsQuoteHash() { commentTags("c#\"`\\'<-", 1) }
 
-func commentTags(alphabet string) {
+func CommentTags() { commentTags("c \n{}(=1.,;", 0) }
+
+func commentTags(alphabet string, extra int) {
 	p := programs[vrt.Choice(len(programs))]
 	at := vrt.Choice(len(p.stmts) + 1)
-	body := vrt.BytesIn(vrt.IntRange(0, 1+vrt.Tier()), alphabet)
+	body := vrt.BytesIn(vrt.IntRange(0, 1+extra+vrt.Tier()), alphabet)
 	s := ""
 	for i, st := range p.stmts {
 		if i == at {
